@@ -1,4 +1,5 @@
 import TlsProofs.ConnClose
+import TlsModel.Gen.Conn
 /-
   C17 — closure, truncation and transport failures are contained and reported faithfully.
 
@@ -215,5 +216,142 @@ theorem transport_fault_data_send (l : Local) (hopen : l.me.closed = false) (htx
     simp [sendKeyUpdate, hopen, h13, sendMsg, sendRaw, htx, Msg.ct, shutdown_me]
   · intro p n hs hc
     simp [heartbeat, hopen, hs, hc, sendMsg, sendRaw, htx, Msg.ct, shutdown_me]
+
+
+/-! ### close(), makefile() reference counting, the two directions' close in every order -/
+
+/-- `makefile()` adds a reference: the next close() only drops it; the connection stays open, nothing
+    is sent.  In general a close() does something only when it brings the count to 0. -/
+theorem makefile_refcount (l : Local) (hopen : l.me.closed = false) (h1 : l.me.refCount - 1 ≠ 0) :
+    (close l).1 = .ok () ∧ (close l).2.me.closed = false ∧ (close l).2.out = l.out ∧
+    (close l).2.me.refCount = l.me.refCount - 1 ∧ (close l).2.me.resumable = l.me.resumable := by
+  simp [close, hopen, h1]
+
+theorem makefile_then_close (l : Local) (hopen : l.me.closed = false) (h1 : l.me.refCount = 1) :
+    (close (makefile l)).2.me.closed = false ∧ (close (makefile l)).2.me.refCount = 1 := by
+  simp [close, makefile, hopen, h1]
+
+/-- all interleavings of two sequences -/
+def interleave {α : Type} : List α → List α → List (List α)
+  | [], ys => [ys]
+  | xs, [] => [xs]
+  | x :: xs, y :: ys =>
+    (interleave xs (y :: ys)).map (x :: ·) ++ (interleave (x :: xs) ys).map (y :: ·)
+termination_by xs ys => xs.length + ys.length
+
+def closeWorld (v13 csC csS : Bool) : World :=
+  { c := { isClient := true, ver13 := v13, closeSocket := csC },
+    s := { isClient := false, ver13 := v13, closeSocket := csS } }
+
+def closeSeq (who : Side) : List (Side × Op) :=
+  [(who, .write [1, 2]), (who, .close), (who, .read none 1), (who, .read none 0), (who, .close)]
+
+/-- after the interleaving each endpoint looks at its input once more (an endpoint whose close() with
+    closeSocket off was still waiting when its own sequence ended learns of the peer's close then) -/
+def closeDrain : List (Side × Op) :=
+  [(.client, .read none 0), (.server, .read none 0), (.client, .read none 0), (.server, .read none 0)]
+
+/-- Both directions closed, in EVERY interleaving of the two endpoints' (write, close, read, read,
+    close) sequences, for every closeSocket combination and both protocol generations: both ends are
+    closed, both sessions are still resumable, no operation raised, and a later write is refused
+    with the closed-connection error while the session stays resumable. -/
+def Out.isErr : Out → Bool
+  | .err _ => true
+  | _ => false
+
+theorem close_every_interleaving :
+    ∀ v13 csC csS : Bool, ∀ h ∈ interleave (closeSeq .client) (closeSeq .server),
+      (run (closeWorld v13 csC csS) (h ++ closeDrain)).c.closed = true ∧ (run (closeWorld v13 csC csS) (h ++ closeDrain)).s.closed = true ∧
+      (run (closeWorld v13 csC csS) (h ++ closeDrain)).c.resumable = true ∧ (run (closeWorld v13 csC csS) (h ++ closeDrain)).s.resumable = true ∧
+      (∀ o ∈ outs (closeWorld v13 csC csS) (h ++ closeDrain), o.isErr = false) ∧
+      (step (run (closeWorld v13 csC csS) (h ++ closeDrain)) .client (.write [9])).1 = .err .closedConn ∧
+      (step (run (closeWorld v13 csC csS) (h ++ closeDrain)) .client (.write [9])).2.c.resumable = true := by
+  decide +kernel
+
+example : (interleave (closeSeq .client) (closeSeq .server)).length = 252 := by decide +kernel
+
+/-! ### tie to the source: tables regenerated from tlslite/tlsrecordlayer.py on every run -/
+
+def alertProbe (lvl d : Nat) (dead : Bool) : Out × Local :=
+  runLocal (.read none 1) ⟨{ isClient := true, ver13 := true, txDead := dead }, ⟨[⟨0, .alert lvl d⟩], false⟩, {}⟩
+
+/-- The alert handler of the model classifies every (level, description) as the generated condition
+    and `_shutdown` arguments of `_getMsg` do: whether close_notify is sent back, which alert that is,
+    whether the session stays resumable, and that the alert is raised with the peer's description
+    (close_notify is swallowed by `readAsync`, as its generated except clause says). -/
+theorem gen_alert_table_matches_model :
+    ∀ lvl ∈ List.range 4, ∀ d ∈ List.range 256,
+      ((alertProbe lvl d false).2.out.recs =
+          if Gen.Conn.alertReply lvl d then [⟨0, .alert Gen.Conn.alertReplyMsg.1 Gen.Conn.alertReplyMsg.2⟩] else []) ∧
+      (alertProbe lvl d false).2.me.resumable = Gen.Conn.alertKeepsResumable lvl d ∧
+      (alertProbe lvl d false).2.me.closed = true ∧
+      (alertProbe lvl d false).1 = (if d = 0 then .bytes [] else .err (.remoteAlert d)) := by
+  decide +kernel
+
+/-- Every socket error of that reply is forgiven (the generated handler is `except socket.error: pass`):
+    with a transport that cannot send, the outcome of receiving any alert is the same as above. -/
+theorem gen_alert_reply_errors_forgiven :
+    Gen.Conn.alertReplyForgiven = ["socket.error"] ∧ Gen.Conn.alertReplyForgivenBody = "pass" ∧
+    Gen.Conn.alertRaises = "TLSRemoteAlert" ∧
+    ∀ lvl ∈ List.range 4, ∀ d ∈ List.range 256,
+      (alertProbe lvl d true).1 = (alertProbe lvl d false).1 ∧
+      (alertProbe lvl d true).2.me.resumable = (alertProbe lvl d false).2.me.resumable ∧
+      (alertProbe lvl d true).2.me.closed = true := by
+  decide +kernel
+
+/-- exception -> alert mapping of the except clauses, as the model raises them -/
+theorem gen_exc_alert_matches_model :
+    Gen.Conn.excAlert = [("_getMsg:TLSIllegalParameterException", 47), ("_getMsg:BadCertificateError", 42),
+      ("_getMsg:SyntaxError", 50), ("_getNextRecordFromSocket:TLSUnexpectedMessage", 10),
+      ("_getNextRecordFromSocket:TLSRecordOverflow", 22), ("_getNextRecordFromSocket:TLSIllegalParameterException", 47),
+      ("_getNextRecordFromSocket:TLSDecryptionFailed", 21), ("_getNextRecordFromSocket:TLSBadRecordMAC", 20)] ∧
+    (runLocal (.read none 1) ⟨{ isClient := true, ver13 := true }, ⟨[⟨5, .appData [1]⟩], false⟩, {}⟩).1 =
+      .err (.localAlert ((Gen.Conn.excAlert.lookup "_getNextRecordFromSocket:TLSBadRecordMAC").getD 0)) := by
+  decide +kernel
+
+/-- the except clauses of `readAsync` (generated) and what the model does at those points -/
+theorem gen_read_except_matches_model :
+    Gen.Conn.readInnerExcept = [("TLSRemoteAlert", "reraise_unless_close_notify"),
+      ("TLSAbruptCloseError", "reraise_unless_ignoreAbruptClose_then_shutdown_true")] ∧
+    Gen.Conn.readOuterExcept = "shutdown_false_reraise" ∧
+    (∀ ig : Bool,
+      let r := runLocal (.read none 1) ⟨{ isClient := true, ver13 := true, ignoreAbruptClose := ig }, ⟨[], true⟩, {}⟩
+      r.1 = (if ig then .bytes [] else .err .abruptClose) ∧ r.2.me.closed = true ∧ r.2.me.resumable = ig) := by
+  decide +kernel
+
+/-- `_decrefAsync`, `makefile`, `_handshakeStart` as generated, against the model's `close` -/
+theorem gen_close_matches_model :
+    Gen.Conn.refCountInit = 1 ∧ ((default : End).refCount = Gen.Conn.refCountInit) ∧
+    Gen.Conn.makefileShape = "increment" ∧ Gen.Conn.decrefGuard = "decrement_then_if_zero_and_open" ∧
+    Gen.Conn.closeFirstAlert = (1, 0) ∧ Gen.Conn.closeSocketBranch = "shutdown_true" ∧
+    Gen.Conn.closeWait13Client = ([21, 23, 22], [4, 24]) ∧ Gen.Conn.closeWait13Server = ([21, 23, 22], [24]) ∧
+    Gen.Conn.closeWaitOld = ([21, 23], []) ∧ Gen.Conn.closeWaitKeyUpdate = "advance_read_no_reply" ∧
+    Gen.Conn.closeWaitFinal = "close_notify_shutdown_true_else_raise" ∧
+    Gen.Conn.closeExcept = [("socket.error,TLSAbruptCloseError", "shutdown_true"), ("*", "shutdown_false_reraise")] ∧
+    -- the first thing close() sends is the generated alert
+    (runLocal .close ⟨{ isClient := true, ver13 := true }, {}, {}⟩).2.out.recs =
+      [⟨0, .alert Gen.Conn.closeFirstAlert.1 Gen.Conn.closeFirstAlert.2⟩] ∧
+    -- the wait loop accepts exactly the generated secondary types (TLS 1.3 client / server)
+    (∀ c : Bool, ∀ t ∈ List.range 32,
+      ((runLocal .close ⟨{ isClient := c, ver13 := true, closeSocket := false }, ⟨[⟨0, .hsMalformed t⟩], false⟩, {}⟩).1
+          = .err (.localAlert 50)) =
+        (if c then Gen.Conn.closeWait13Client.2 else Gen.Conn.closeWait13Server.2).contains t) := by
+  decide +kernel
+
+/-- `writeAsync` and `_sendMsgThroughSocket` as generated, against the model -/
+theorem gen_write_and_send_failure_match_model :
+    Gen.Conn.writeShape = "closed_check_before_try" ∧ Gen.Conn.writeExcept = "shutdown_ignoreAbruptClose_reraise" ∧
+    Gen.Conn.sendFailPeek = "handshake_record_and_closed" ∧
+    Gen.Conn.sendFailPeekOutcome = "shutdown_false_raise_alert_else_reraise" ∧
+    Gen.Conn.sendFailElse = "shutdown_false_for_types_then_reraise" ∧
+    -- a failed send closes the connection inside `_sendMsgThroughSocket` exactly for the generated content types
+    (∀ m ∈ [Msg.keyUpdate 0, Msg.certRequest 1 false, Msg.heartbeat 1 [] 16, Msg.alert 1 0, Msg.appData [1]],
+      (sendMsg m ⟨{ isClient := false, ver13 := true, txDead := true }, {}, {}⟩).2.me.closed =
+        Gen.Conn.sendFailCloseTypes.contains m.ct) ∧
+    (∀ ig : Bool,
+      let r := runLocal (.write [1]) ⟨{ isClient := true, ver13 := true, txDead := true, ignoreAbruptClose := ig }, {}, {}⟩
+      r.1 = .err .socketError ∧ r.2.me.closed = true ∧ r.2.me.resumable = ig) ∧
+    (runLocal (.write [1]) ⟨{ isClient := true, ver13 := true, closed := true }, {}, {}⟩).2.me.resumable = true := by
+  decide +kernel
 
 end Tls.Conn
